@@ -89,7 +89,7 @@ func c20Run(c c20Case, st *fw.Stats) []fw.Viol {
 	switch c.Kind {
 	case "auth":
 		accounts := c20Accounts[c.Accounts]
-		for _, placement := range []string{"route", "global", "group", "global+405", "global+404", "route-dynamic-cached", "route-dynamic-cached-repeat", "nested-group-siblings", "group-use-siblings", "nested-group-siblings-single-mw", "group-use-siblings-single-mw"} {
+		for _, placement := range []string{"route", "global", "group", "global+405", "global+404", "route-dynamic-cached", "route-dynamic-cached-repeat", "nested-group-siblings", "group-use-siblings", "nested-group-siblings-single-mw", "group-use-siblings-single-mw", "global-two-gates", "group-use-two-gates"} {
 			for _, hdr := range c20Auth {
 				st.Evals++
 				st.Nontrivial++
@@ -144,6 +144,19 @@ func c20Run(c c20Case, st *fw.Stats) []fw.Viol {
 						r.GET("/t", main, sibling)
 						r.GET("/u", main, sibling)
 					})
+				case "global-two-gates":
+					// two gates from one call site (a loop): an open one (any well-formed credentials), then the real one
+					for _, acc := range []map[string]string{nil, accounts} {
+						r.Use(handlers.HTTPBasicAuth(acc))
+					}
+					r.GET("/s", main, after)
+				case "group-use-two-gates":
+					r.Group("/in", func() {
+						for _, acc := range []map[string]string{nil, accounts} {
+							r.Use(handlers.HTTPBasicAuth(acc))
+						}
+						r.GET("/s", main, after)
+					})
 				case "group-use-siblings":
 					r.Group("/in", func() {
 						r.Use(pass)
@@ -169,7 +182,7 @@ func c20Run(c c20Case, st *fw.Stats) []fw.Viol {
 				switch placement {
 				case "route-dynamic-cached", "route-dynamic-cached-repeat":
 					req = httptest.NewRequest("GET", "/s/7", nil)
-				case "nested-group-siblings", "group-use-siblings", "nested-group-siblings-single-mw", "group-use-siblings-single-mw":
+				case "nested-group-siblings", "group-use-siblings", "nested-group-siblings-single-mw", "group-use-siblings-single-mw", "group-use-two-gates":
 					req = httptest.NewRequest("GET", "/in/s", nil)
 				}
 				if placement == "global+405" {
@@ -237,6 +250,23 @@ func c20Run(c c20Case, st *fw.Stats) []fw.Viol {
 		}
 	case "override":
 		values := []string{"", "PUT", "put", "Patch", "DELETE", "delete", "GET", "POST", "HEAD", "X", "PUTX", " PUT", "OPTIONS"}
+		// every proper fragment of the three names, and strings spanning two of them in a list
+		seenV := map[string]bool{}
+		for _, v := range values {
+			seenV[v] = true
+		}
+		for _, name := range []string{"PUT", "PATCH", "DELETE", "PUT PATCH DELETE", "PUT,PATCH,DELETE"} {
+			for i := 0; i < len(name); i++ {
+				for j := i + 1; j <= len(name); j++ {
+					for _, v := range []string{name[i:j], strings.ToLower(name[i:j])} {
+						if !seenV[v] && (len(name) <= 6 || j-i >= 4 && j-i <= 9) {
+							seenV[v] = true
+							values = append(values, v)
+						}
+					}
+				}
+			}
+		}
 		carriers := []string{"none", "header", "query", "body", "header+query-agree", "header+body-disagree"}
 		for _, v := range values {
 			for _, carrier := range carriers {
@@ -424,7 +454,7 @@ func c20Run(c c20Case, st *fw.Stats) []fw.Viol {
 var c20Spec = fw.Spec[c20Case]{
 	ID:    "C20",
 	Level: "model_checking",
-	Rule: "complete decision tables: HTTPBasicAuth: 6 account maps (nil, empty, one user, empty password, two users, password containing ':') x 27 Authorization values (incl. the full square of known / unknown / empty users x matching / other / empty passwords) (absent, valid, wrong password, unknown user, empty user / password, no colon, bare scheme, bad base64, scheme in other case, other scheme, double space, padding, leading space, case-changed user, empty) x 11 placements (route, global, group middleware; global gate in front of the not-allowed and of the not-found handlers; a dynamic route on a caching router, first request and repeat after a valid one filled the cache; route-level gate of the first of several sibling routes inside nested groups / inside a group with three Use calls, with two and with exactly one route-level middleware per sibling); " +
+	Rule: "complete decision tables: HTTPBasicAuth: 6 account maps (nil, empty, one user, empty password, two users, password containing ':') x 27 Authorization values (incl. the full square of known / unknown / empty users x matching / other / empty passwords) (absent, valid, wrong password, unknown user, empty user / password, no colon, bare scheme, bad base64, scheme in other case, other scheme, double space, padding, leading space, case-changed user, empty) x 13 placements (two gates registered from one call site with Router.Use, globally and inside a group; route, global, group middleware; global gate in front of the not-allowed and of the not-found handlers; a dynamic route on a caching router, first request and repeat after a valid one filled the cache; route-level gate of the first of several sibling routes inside nested groups / inside a group with three Use calls, with two and with exactly one route-level middleware per sibling); " +
 		"HTTPMethodOverrideHandler: 10 request methods x 13 override values x 6 carriers (none, header, query, body, header+query agreeing, header+body disagreeing - the last for totality only); WrapHTTPHandlers: lists of 1..4 distinguishable wrappers (+ the override gate in the list); WrapHTTPHandler / WrapHTTPHandlerFunc and their four aliases at every subset of positions of chains n<=4; every row is non-trivial",
 	Assume: []string{"'well-formed Basic credentials' = scheme Basic (any case), one space, valid base64, a colon in the decoded text", "when both override carriers disagree the statement does not say which wins; those rows are executed but not asserted"},
 	Bounds: func(tier string) map[string]any {
